@@ -873,3 +873,113 @@ func isFreshCollectionInsert(info *types.Info, fi *FuncInfo, n ast.Node) bool {
 	}
 	return fresh == 1 && other == 0
 }
+
+// ---------------------------------------------------------------------------
+// R3.replay-deterministic: no wall-clock dependent decision in a replayed handler
+
+func init() {
+	register(&Rule{ID: "R3.replay-deterministic", Props: []string{"C03", "C06"}, Floor: 10,
+		Text: "in every handler of a write-class command (and the tile38 functions it calls synchronously) no branch condition depends on the wall clock — on time.Now/Since/Until or on a local derived from them: the command is re-executed at a different time by start-up and by followers, so a time-dependent decision (treating a not-yet-swept expired object as absent, say) makes the replayed state differ from the acknowledged one; computing the stored deadline or the elapsed time from the clock is fine",
+		Run:  ruleReplayDeterministic})
+}
+
+func ruleReplayDeterministic(c *Ctx) {
+	a := c.muLK()
+	if a.err != "" {
+		c.und("engine", 0, "%s", a.err)
+		return
+	}
+	ct := a.ct
+	seen := map[*Unit]bool{}
+	var units []*Unit
+	for _, cl := range ct.DT.Clauses {
+		for _, s := range cl.Strings {
+			if lc := ct.classOf(s); lc != nil && lc.Write {
+				for _, h := range ct.Handlers[cl] {
+					if u := a.lk.ofDecl[h]; u != nil {
+						for _, x := range a.lk.reachSync(u) {
+							if !seen[x] && x.Fn.Pkg.PkgPath == modPath+"/internal/server" {
+								seen[x] = true
+								units = append(units, x)
+							}
+						}
+					}
+				}
+			}
+		}
+	}
+	isClock := func(info *types.Info, n ast.Node) bool {
+		hit := false
+		ast.Inspect(n, func(x ast.Node) bool {
+			if call, ok := x.(*ast.CallExpr); ok {
+				f := callee(info, call)
+				if isFunc(f, "time", "Now") || isFunc(f, "time", "Since") || isFunc(f, "time", "Until") {
+					hit = true
+				}
+			}
+			return true
+		})
+		return hit
+	}
+	for _, u := range units {
+		if u.Lit != nil {
+			continue // literals are part of their function's body below
+		}
+		info := u.Info()
+		// taint: locals assigned from clock expressions, transitively
+		tainted := map[types.Object]bool{}
+		mentions := func(n ast.Node) bool {
+			if isClock(info, n) {
+				return true
+			}
+			hit := false
+			ast.Inspect(n, func(x ast.Node) bool {
+				if id, ok := x.(*ast.Ident); ok && tainted[info.ObjectOf(id)] {
+					hit = true
+				}
+				return true
+			})
+			return hit
+		}
+		for changed := true; changed; {
+			changed = false
+			ast.Inspect(u.Fn.Decl.Body, func(x ast.Node) bool {
+				as, ok := x.(*ast.AssignStmt)
+				if !ok || len(as.Lhs) != len(as.Rhs) {
+					return true
+				}
+				for i, l := range as.Lhs {
+					if id, ok := l.(*ast.Ident); ok {
+						if o := info.ObjectOf(id); o != nil && !tainted[o] && mentions(as.Rhs[i]) {
+							tainted[o] = true
+							changed = true
+						}
+					}
+				}
+				return true
+			})
+		}
+		bad := 0
+		ast.Inspect(u.Fn.Decl.Body, func(x ast.Node) bool {
+			var cond ast.Expr
+			switch s := x.(type) {
+			case *ast.IfStmt:
+				cond = s.Cond
+			case *ast.ForStmt:
+				cond = s.Cond
+			case *ast.SwitchStmt:
+				cond = s.Tag
+			}
+			if cond != nil && mentions(cond) {
+				// `ttl > 0`-style arithmetic on the elapsed time for output only is still a decision; report it
+				bad++
+				c.bad(u.Name+"→if "+exprStr(cond), cond.Pos(), "a write handler that is re-executed from the log branches on the wall clock (%s): replay at start-up or on a follower can take the other branch", exprStr(cond))
+			}
+			return true
+		})
+		if bad == 0 {
+			c.ok(u.Name, u.Pos(), len(tainted) > 0, "no branch condition depends on the clock (%d clock-derived locals: deadlines, elapsed time)", len(tainted))
+		}
+	}
+	c.stat("replayed_functions_scanned", len(units))
+}
